@@ -55,6 +55,9 @@ var subUnit = ev.Register("key-pairs",
 	"pairs of requests (method, Host, raw path, raw query) where the second is the first under 1-2 adversarial mutations (toggle trailing slash, insert ./, x/../, //, flip host case, move a |tail across the path/query, method/host or host/path boundary, swap a character with its percent-encoding, add/remove an empty query, change method/host/query), parsed by http.ReadRequest and keyed by cache.MakeFromRequest; oracle: three-valued SameResource reference (RFC 3986 remove_dot_segments + duplicate-slash collapse, trailing slash preserved); non-trivial = the wire forms differ and the verdict is not EITHER; distinct by normalised pair",
 	func(p Pair, o *ev.Obs) *ev.Failure {
 		verdict, why := ref.SameResource(p.A, p.B)
+		if len(p.Mut) == 1 && p.Mut[0] == "hash-tail" {
+			verdict, why = ref.MustNot, "hash-tail" // the reference gives no verdict on raw characters outside the URI alphabet; this one it can
+		}
 		o.Class("verdict:" + string(verdict))
 		o.Class("why:" + why)
 		o.Class("form:" + p.Form)
@@ -125,7 +128,7 @@ var encSwap = [][2]string{{"a", "%61"}, {"A", "%41"}, {"/", "%2F"}, {"|", "%7C"}
 func mutate(t *rapid.T, a ref.Target) (ref.Target, string) {
 	b := a
 	kinds := []string{"trailing-slash", "dot", "dotdot", "double-slash", "host-case", "pipe-path-query", "pipe-host-path", "pipe-method",
-		"percent-swap", "empty-query", "method", "host", "query", "path-case", "append-segment", "query-to-path", "identity"}
+		"percent-swap", "empty-query", "method", "host", "query", "path-case", "append-segment", "query-to-path", "identity", "hash-tail"}
 	k := rapid.SampledFrom(kinds).Draw(t, "mutation")
 	switch k {
 	case "trailing-slash":
@@ -183,6 +186,15 @@ func mutate(t *rapid.T, a ref.Target) (ref.Target, string) {
 		b.Path = flipCase(b.Path)
 	case "append-segment":
 		b.Path = strings.TrimSuffix(b.Path, "/") + "/" + rapid.SampledFrom(pathSegs).Draw(t, "seg2")
+	case "hash-tail":
+		// a request target has no fragment part (RFC 9112 3.2): a "#" a client puts on the wire belongs to the
+		// path or the query it stands in, and the target with the tail is another resource
+		tail := rapid.SampledFrom([]string{"#v2", "#", "#/../x", "#?y=1"}).Draw(t, "tail")
+		if b.HasQ {
+			b.Query += tail
+		} else {
+			b.Path += tail
+		}
 	case "query-to-path":
 		if b.HasQ {
 			b.Path, b.HasQ, b.Query = b.Path+"%3F"+b.Query, false, ""
@@ -297,6 +309,9 @@ var subE2E = ev.Register("key-e2e",
 	"request A (stored) then request B through a real proxy against an origin that echoes the request-target it saw; MUST-NOT pairs: B's answer describes B (never A's stored entry); MUST-SHARE pairs: B is served from A's entry without contacting the origin; non-trivial and distinct as for key-pairs",
 	func(c E2E, o *ev.Obs) *ev.Failure {
 		verdict, why := ref.SameResource(c.Pair.A, c.Pair.B)
+		if len(c.Pair.Mut) == 1 && c.Pair.Mut[0] == "hash-tail" {
+			verdict, why = ref.MustNot, "hash-tail"
+		}
 		o.Class("verdict:" + string(verdict))
 		o.Class("why:" + why)
 		org := origin.New(func(w http.ResponseWriter, r *http.Request, _ []byte, e *origin.Entry) {
